@@ -53,6 +53,10 @@ def cases(shard, tier):
                         yield {'header': {'seq': seq, 'idlen': idlen, 'ident': ident, 'nlf': nlf}}
                         # the same parameters handed over as a ready-made FileHeaderItem / StorageUnitLabel
                         yield {'header': {'seq': seq, 'idlen': idlen, 'ident': ident, 'nlf': nlf, 'objects': True}}
+        # header id and the defining origin's FILE-ID made to differ after the origin was added: the file must not be
+        # written with the two disagreeing (refusing is fine)
+        for late in ('header-id-edited', 'origin-file-id-edited', 'both-edited-alike'):
+            yield {'header': {'seq': 1, 'idlen': 8, 'ident': '0', 'nlf': 1, 'late': late}}
         # identifier contents: digits only, blanks at either end, lower case, punctuation (must stay left-justified)
         for idtext in ('20240917', '7', '001', ' LEADING-BLANK', 'TRAILING-BLANK ', 'mixed Case 12', '-', '1e5', '+42'):
             for seq in (1, 7777777777):
@@ -88,6 +92,23 @@ def run_case(case):
         hd = case['header']
         sp = header_spec(hd)
         valid = 1 <= hd['seq'] and hd['seq'] + hd['nlf'] - 1 <= 9999999999 and hd['idlen'] <= 65 and len(hd['ident']) == 1
+        if hd.get('late'):
+            if hd['late'] in ('header-id-edited', 'both-edited-alike'):
+                sp['ops'].append({'op': 'fhid', 'lf': 'L0', 'value': 'EDITED-ID'})
+            if hd['late'] in ('origin-file-id-edited', 'both-edited-alike'):
+                sp['ops'].append({'op': 'set', 'h': 'O0', 'attr': 'file_id', 'part': 'value', 'value': 'EDITED-ID'})
+            res = S.run_spec(sp)
+            raised = res['failed_at'] is not None or res['write'] != 'ok'
+            if not raised:
+                try:
+                    lf = R.split_logical_files(R.parse_physical(res['data']))[0]
+                    hid = R.attr_values(lf.records[0][2].objects[0], 'ID')
+                    fid = R.attr_values(lf.objects('ORIGIN')[0], 'FILE-ID')
+                    if [str(x).rstrip(' ') for x in hid] != [str(x).rstrip(' ') for x in fid]:
+                        viol.append(("C09:origin_file_id:after-late-edit", f"file written with header id {hid!r} and FILE-ID {fid!r} | {hd}"))
+                except R.FormatError as e:
+                    viol.append((f"C09:unparsable:{e.code}", f"{e} | {hd}"))
+            return Outcome('late-edit:' + ('refused' if raised else 'written'), viol, True, digest=str(raised))
         res = S.run_spec(sp)
         raised = res['failed_at'] is not None or res['write'] != 'ok'
         if not valid:
